@@ -146,3 +146,17 @@ Definition run_C04 (case obs : sx) : sx :=
       else bad_case
   | _, _ => bad_case
   end.
+
+(* ---- C14: race-detector children and buffer-ownership scenarios ---- *)
+Definition run_C14 (case obs : sx) : sx :=
+  match case, obs with
+  | SL (t :: _), SL [st; SN n] =>
+      if is_sym "race" t then
+        SL [SL [sym "clean"; SN 0];
+            if is_sym "clean" st then ok else if is_sym "race" st then bad "data-race-reported" else bad "race-child-failed"]
+      else if is_sym "own" t then
+        SL [SL [sym "changed"; SN 0]; if n =? 0 then ok else bad "message-changed-while-its-callback-ran"]
+      else bad_case
+  | SL (t :: _), _ => if is_sym "race" t then SL [SL [sym "clean"; SN 0]; bad "race-build-missing"] else bad_case
+  | _, _ => bad_case
+  end.
